@@ -883,10 +883,12 @@ class _ClassBuilder:
 
         base_names = set(self._base_names)
 
+        # A `__weakref__` that the class body itself lists in `__slots__` does
+        # not survive (`__slots__` is rebuilt below), so only a base class
+        # can already provide it.
         names = self._attr_names
         if (
             self._weakref_slot
-            and "__weakref__" not in getattr(self._cls, "__slots__", ())
             and "__weakref__" not in names
             and not weakref_inherited
         ):
